@@ -188,6 +188,8 @@ func (P) Generate(g *core.Gen) {
 	cs = append(cs, genSoup(g, r, keys, g.N(6000, 300000))...)
 	cs = append(cs, genSigs(g, r, keys, g.N(4000, 180000))...)
 	cs = append(cs, genWitnessMisc(g, r, keys, g.N(2000, 90000))...)
+	cs = append(cs, genSweeps(g, r.Fork(), keys, g.N(7, 1))...)
+	cs = append(cs, genMultiInput(g, r.Fork(), keys, g.N(300, 12000))...)
 	tick("spends built")
 	emitSpends(g, cs)
 	tick("oracles resolved")
